@@ -2,4 +2,4 @@ From Coq Require Import Extraction ExtrOcamlBasic.
 From Common Require Import Conv Outcome.
 From Gen Require Import C02.
 From C02 Require Import Model.
-Extraction "c02_model.ml" conv_anchor gtab_maxScriptListWork gtab_lookupCap gtab_gsubExt gtab_gposExt read_gtab sr_hook f_tag f_lookups l_type l_flags l_mfs l_subs g_features g_lookups.
+Extraction "c02_model.ml" conv_anchor gtab_maxScriptListWork gtab_lookupCap gtab_gsubExt gtab_gposExt read_gtab sr_hook f_tag f_lookups l_type l_flags l_mfs l_subs l_calls g_features g_lookups distinct_calls.
